@@ -22,7 +22,7 @@ Qed.
 
 Lemma op_write_res r d : snd (op_write r d) = WOk (len d) \/ snd (op_write r d) = WErrContentLength.
 Proof.
-  unfold op_write. destruct d as [|c d]; [left; reflexivity|].
+  unfold op_write. destruct d as [|c d]; [left; reflexivity|]. unfold write_core, prep0.
   cbv zeta.
   destruct (chunked _); [left; apply write_chunk_res|].
   break_conds; cbn [snd]; auto.
@@ -45,7 +45,7 @@ Lemma out_set_written r a b : out (set_written r a b) = out r. Proof. reflexivit
 Lemma op_write_ecl r d r' : op_write r d = (r', WErrContentLength) -> out r' = out r.
 Proof.
   intros H. assert (Hs := f_equal snd H). apply (f_equal fst) in H. cbn [fst snd] in *. subst r'.
-  revert Hs. unfold op_write. destruct d as [|c d]; [discriminate|]. cbv zeta.
+  revert Hs. unfold op_write. destruct d as [|c d]; [discriminate|]. unfold write_core, prep0. cbv zeta.
   destruct (chunked _).
   - rewrite write_chunk_res. discriminate.
   - break_conds; cbn [snd fst]; try discriminate; intros _;
